@@ -2,10 +2,14 @@ package gen
 
 import (
 	"fmt"
+	"os"
 
 	"google.golang.org/protobuf/proto"
+	"google.golang.org/protobuf/reflect/protodesc"
 	"google.golang.org/protobuf/reflect/protoreflect"
 	"google.golang.org/protobuf/reflect/protoregistry"
+	"google.golang.org/protobuf/types/descriptorpb"
+	"google.golang.org/protobuf/types/dynamicpb"
 
 	// Link the test-proto corpus (registers with the global registries).
 	_ "google.golang.org/protobuf/internal/testprotos/enums"
@@ -48,6 +52,38 @@ import (
 	_ "google.golang.org/protobuf/types/known/timestamppb"
 	_ "google.golang.org/protobuf/types/known/wrapperspb"
 )
+
+// Extensions of a generated message whose values are messages that contain
+// maps and many fields. None of the extensions declared by the linked test
+// protos has such a type; they are declared here through protodesc and
+// registered as dynamicpb extension types, the way a program using dynamic
+// schemas would.
+func init() {
+	if os.Getenv("PBSIM_C19_CHILD") == "1" {
+		return // a first-use process must not touch any descriptor before its clients start
+	}
+	fp := &descriptorpb.FileDescriptorProto{
+		Name:       proto.String("pbsim/dynext.proto"),
+		Package:    proto.String("pbsim.dynext"),
+		Syntax:     proto.String("proto2"),
+		Dependency: []string{"internal/testprotos/test/test.proto"},
+		Extension: []*descriptorpb.FieldDescriptorProto{
+			{Name: proto.String("dyn_msg"), Number: proto.Int32(9000), Extendee: proto.String(".goproto.proto.test.TestAllExtensions"), TypeName: proto.String(".goproto.proto.test.TestAllTypes"),
+				Label: descriptorpb.FieldDescriptorProto_LABEL_OPTIONAL.Enum(), Type: descriptorpb.FieldDescriptorProto_TYPE_MESSAGE.Enum()},
+			{Name: proto.String("dyn_rep"), Number: proto.Int32(9001), Extendee: proto.String(".goproto.proto.test.TestAllExtensions"), TypeName: proto.String(".goproto.proto.test.TestAllTypes"),
+				Label: descriptorpb.FieldDescriptorProto_LABEL_REPEATED.Enum(), Type: descriptorpb.FieldDescriptorProto_TYPE_MESSAGE.Enum()},
+		},
+	}
+	fd, err := protodesc.NewFile(fp, protoregistry.GlobalFiles)
+	if err != nil {
+		panic("gen: dynext: " + err.Error())
+	}
+	for i := 0; i < fd.Extensions().Len(); i++ {
+		if err := protoregistry.GlobalTypes.RegisterExtension(dynamicpb.NewExtensionType(fd.Extensions().Get(i))); err != nil {
+			panic("gen: dynext: " + err.Error())
+		}
+	}
+}
 
 // Well-known corpus type names.
 const (
